@@ -61,6 +61,8 @@ Yield == RQ(Ev.op = "yield" /\ ny < Len(R)
             /\ [idx |-> ny + 1, kind |-> Ev.kind, type |-> Ev.type, ranges |-> Ev.ranges] = Expected(R, ny + 1))
          /\ ny' = ny + 1 /\ UNCHANGED ni
 Eof == RQ(Ev.op = "eof" /\ ny = Len(R)) /\ UNCHANGED <<ny, ni>>
+(* another sequential read on the same reader starts again at the first record, whatever the reader did before *)
+Restart == RQ(Ev.op = "restart") /\ ny' = 0 /\ UNCHANGED ni
 
 IndexEntry == RQ(Ev.op = "index" /\ ni < Len(R)
                  /\ Ev.vrpos = idx[ni + 1].vrpos /\ Ev.lrshpos = idx[ni + 1].lrshpos
@@ -77,7 +79,7 @@ Get == RQ(Ev.op = "get" /\ Ev.k \in 1..Len(R) /\ Ev.off >= 0
        /\ UNCHANGED <<ny, ni>>
 
 Done == ~More /\ UNCHANGED <<phase, idx, rext, ny, ni, fvars>>
-TNext == \/ (Seg \/ EndWrite \/ Sul \/ Yield \/ Eof \/ IndexEntry \/ IndexLen \/ Get) /\ l' = l + 1 /\ UNCHANGED tid
+TNext == \/ (Seg \/ EndWrite \/ Sul \/ Yield \/ Eof \/ Restart \/ IndexEntry \/ IndexLen \/ Get) /\ l' = l + 1 /\ UNCHANGED tid
          \/ Done /\ UNCHANGED <<tid, l>>
 TSpec == TInit /\ [][TNext]_tvars
 =============================================================================
